@@ -87,6 +87,10 @@ FEATURES = {
                                        "E": {"type": "array", "items": S("B")}}, body="A", resp="C"),
     "required-header-default": featgen.wrap({"A": OBJ({"x": {"type": "string"}})}, resp="A", method="get",
                                             params=[{"name": "X-Mode", "in": "header", "required": True, "schema": {"type": "string", "default": "fast"}}]),
+    # Item is a request body of one operation and the NULLABLE-WRAPPED response of another
+    "nullable-response": {"openapi": "3.1.0", "info": {"title": "t", "version": "1"}, "components": {"schemas": {"Item": OBJ({"x": {"type": "string"}})}},
+                          "paths": {"/a": {"get": {"operationId": "getA", "responses": {"200": {"description": "ok", "content": {"application/json": {"schema": {"oneOf": [S("Item"), {"type": "null"}]}}}}}}},
+                                    "/b": {"post": {"operationId": "postB", "requestBody": {"required": True, "content": {"application/json": {"schema": S("Item")}}}, "responses": {"204": {"description": "n"}}}}}},
     "param-clash": featgen.wrap({"A": OBJ({"x": {"type": "string"}})}, resp="A", method="get",
                                 params=[{"name": "id", "in": "query", "schema": {"type": "string"}}, {"name": "id", "in": "header", "schema": {"type": "integer"}}]),
     "sep-int": featgen.wrap({"A": OBJ({"x": {"type": "string"}})}, resp="A", method="get",
